@@ -51,8 +51,23 @@ Section Murmur.
     | b :: t' => N.lxor (tail_xor (i + 1) t' h) (N.shiftl b (8 * i))
     end.
 
+  (* the other shape of the tail (tail_shape = 1):
+       rest = size & 7; if (rest) { k = 0; while (rest-- > 0) k = (k << 8) | d[rest]; h ^= k; h *= m; }
+     the bytes from the highest index down are shifted into one little-endian word *)
+  Definition tail_word (t : list N) : N :=
+    fold_left (fun k b => N.lor (N.shiftl k 8) b) (rev t) 0%N.
+
+  (* which of the two shapes the source has: Generated.hash_tail_shape *)
+  Variable tail_shape : nat.
+
   Definition tail_step (t : list N) (h : N) : N :=
-    match t with [] => h | _ => mul64 (tail_xor 0 t h) m end.
+    match t with
+    | [] => h
+    | _ => match tail_shape with
+           | O => mul64 (tail_xor 0 t h) m
+           | _ => mul64 (N.lxor h (tail_word t)) m
+           end
+    end.
 
   (* h ^= h >> r; h *= m; h ^= h >> r; *)
   Definition finish (h : N) : N :=
@@ -92,6 +107,55 @@ Fixpoint memswap_loop (fuel i : nat) (a b : list N) : list N * list N :=
 
 Definition memswap (a b : list N) (s : nat) : list N * list N := memswap_loop s 0 a b.
 
+(* The text of memswap is read by tools/genx_hash.py as a PLAN (Generated.memswap_plan): a list of
+   steps (tag, w) over a cursor i that starts at 0, s = the size passed by swap:
+     (0, w)  while (i + w <= s) { exchange w bytes at i; i += w; }        (also `for (; i < s; i++)`, w = 1)
+     (1, w)  if (i + w <= s) { exchange w bytes at i; i += w; }
+     (2, w)  if (i + w <= s) { exchange w bytes at i; }                   (cursor NOT advanced)
+     (3, w)  n = s / w; while (n > 0) { exchange w bytes at the cursor; cursor += w; n--; }   (pointer form)
+     (4, w)  n = s % w; while (n > 0) { exchange 1 byte at the cursor; cursor++; n--; }
+   Exchanging w bytes of two disjoint regions through memcpy and a temporary is w byte exchanges.
+   plan_indices = the byte indices exchanged, in order; run_plan performs the exchanges. *)
+Definition step_indices (s : nat) (st : nat * nat) (i : nat) : list nat * nat :=
+  let '(tag, w) := st in
+  match tag with
+  | 0 => let n := (s - i) / w in (seq i (n * w), i + n * w)
+  | 1 => if i + w <=? s then (seq i w, i + w) else ([], i)
+  | 2 => if i + w <=? s then (seq i w, i) else ([], i)
+  | 3 => let n := s / w in (seq i (n * w), i + n * w)
+  | 4 => let n := s mod w in (seq i n, i + n)
+  | _ => ([], i)
+  end.
+
+Fixpoint plan_indices (s : nat) (plan : list (nat * nat)) (i : nat) : list nat :=
+  match plan with
+  | [] => []
+  | st :: r => let '(l, i') := step_indices s st i in l ++ plan_indices s r i'
+  end.
+
+Definition swap_at (ab : list N * list N) (i : nat) : list N * list N :=
+  (set_nth i (nth i (snd ab) 0%N) (fst ab), set_nth i (nth i (fst ab) 0%N) (snd ab)).
+
+Definition run_plan (plan : list (nat * nat)) (s : nat) (a b : list N) : list N * list N :=
+  fold_left swap_at (plan_indices s plan 0) (a, b).
+
+(* plans for which coverage is proved (HashProofs.plan_covers): guarded advancing steps ending in a
+   byte loop, or the pointer pair  s / w words then s % w bytes *)
+Fixpoint tail_ok (plan : list (nat * nat)) : bool :=
+  match plan with
+  | [] => false
+  | (0, w) :: r => match r with [] => w =? 1 | _ => (0 <? w) && tail_ok r end
+  | (1, w) :: r => tail_ok r
+  | _ => false
+  end.
+
+Definition plan_ok (plan : list (nat * nat)) : bool :=
+  match plan with
+  | [(t1, w); (t2, w')] =>
+    if (t1 =? 3) && (t2 =? 4) then (0 <? w) && (w =? w') else tail_ok plan
+  | _ => tail_ok plan
+  end.
+
 (* ------------------------------------------------------------------ byte-string orders *)
 (* strcmp / memcmp: unsigned bytes, first difference decides, a proper prefix is smaller *)
 Fixpoint bytes_cmp (a b : list N) : Z :=
@@ -121,10 +185,30 @@ Definition float_cmp (a b : N) : Z :=
   | B754_finite _ _ s _ _ _ => if s then -1 else 1
   end%Z.
 
-(* Float_Hash.  normalise = true : the repaired code (both zeros hash as +0.0);
-                normalise = false: the pinned code (raw bit pattern) — kept for float_hash_raw_refuted *)
-Definition float_hash (normalise : bool) (b : N) : N :=
-  if normalise && f_is_zero b then 0%N else b.
+(* the other shape of Float_Cmp (Generated.float_cmp_form = 1): the operands are compared directly,
+     return (lhs > rhs) - (lhs < rhs);        (any comparison with NaN is false: 0)
+   HashFloat.float_cmp_forms_agree: it is the same function as the sign of the difference *)
+Definition float_cmp_direct (a b : N) : Z :=
+  match b64_compare (f_of_bits a) (f_of_bits b) with
+  | Some Lt => -1
+  | Some Gt => 1
+  | _ => 0
+  end%Z.
+Definition float_cmp_of_form (form : nat) : N -> N -> Z :=
+  match form with O => float_cmp | _ => float_cmp_direct end.
+
+(* Float_Hash, by the shape found in the source (Generated.float_hash_shape):
+     0  return the raw bit pattern                               (the pinned code; float_hash_raw_refuted)
+     1  if (ic.as_flt == 0.0) { ic.as_flt = 0.0; }               (FPU comparison, true for both zeros)
+     2  if ((ic.as_int << 1) is 0) { return 0; }                 (sign bit shifted out of the 64-bit word) *)
+Definition float_hash (shape : nat) (b : N) : N :=
+  match shape with
+  | O => b
+  | S O => if f_is_zero b then 0%N else b
+  | _ => if (w64 (N.shiftl b 1) =? 0)%N then 0%N else b
+  end.
+(* the shapes that map both zeros to one hash *)
+Definition fh_normalising (shape : nat) : bool := (shape =? 1) || (shape =? 2).
 
 (* ------------------------------------------------------------------ values *)
 Inductive skind := KArray | KList | KTuple.
@@ -143,11 +227,11 @@ Inductive value :=
 | VMap (k : mkind) (m : list (value * value)). (* bindings in iteration order *)
 
 Section Values.
-  Variables (m r seed : N).
-  Variable float_norm : bool.        (* Float_Hash normalises signed zero (Generated.v) *)
+  Variable hd_ : list N -> N.        (* the byte hash: hash_data with the source's constants and shapes;
+                                        nothing below depends on which function of the bytes it is *)
+  Variable float_shape : nat.        (* shape of Float_Hash (Generated.v) *)
   Variable table_lookup : bool.      (* Table_Cmp compares by lookup first (Generated.v) *)
 
-  Definition hd_ := hash_data m r seed.
 
   Definition sgn (c : Z) : Z := (if c <? 0 then -1 else if 0 <? c then 1 else 0)%Z.
 
@@ -241,7 +325,7 @@ Section Values.
   Fixpoint v_hash (a : value) : N :=
     match a with
     | VInt z => int_hash z
-    | VFloat b => float_hash float_norm b
+    | VFloat b => float_hash float_shape b
     | VStr s => hd_ s
     | VType n => hd_ n
     | VRef p => hd_ (le_split 8 p)
